@@ -5,12 +5,6 @@ From Coq Require Import ZArith Lia.
 Require Import Model.Bytes Model.Bank Model.Hashes Model.Valset Model.L1 Model.Genesis1.
 Require Import Proofs.Genesis1Lemmas.
 
-(* ---- states that agree on every ophost collection ---- *)
-Definition same_ophost (s t : l1state) : Prop :=
-  next_bridge t = next_bridge s ∧ configs t = configs s ∧ next_seq t = next_seq s ∧
-  next_out t = next_out s ∧ outputs t = outputs s ∧ proven t = proven s ∧ pairs t = pairs s ∧
-  batches t = batches s ∧ regfee t = regfee s.
-
 Lemma same_ophost_refl s : same_ophost s s.
 Proof. by repeat split. Qed.
 Lemma same_ophost_trans s t u : same_ophost s t → same_ophost t u → same_ophost s u.
